@@ -322,9 +322,16 @@ func execute(t ev.TB, c *chainCase) ([]string, []observed) {
 	if err != nil {
 		inconclusive(t, c, "mesh.NewCase: %v", err)
 	}
-	defer cs.Close()
-
 	obs := make([]observed, len(c.Reqs))
+	defer func() {
+		if stalled(obs) >= 0 {
+			// an abandoned stream stays "active" for ever: removing the listener would wait out its drain time
+			go cs.Close()
+			return
+		}
+		cs.Close()
+	}()
+
 	for r := range obs {
 		obs[r].Token = tokens[r]
 	}
@@ -670,9 +677,12 @@ func judge(c *chainCase, r int, e *expect, o *observed) (res *failure) {
 			fail("recv/extra-invocation", "receive filter %d invoked once more than the model allows (invocation #%d, phase %s)", y.Idx, y.N, phaseName[y.Seen%3])
 		case afterRedo && x.Kind == "lb": // re-choose: the host selection itself must be repeated
 			fail("re-choose/host-selection-not-repeated", "after re-choose by filter %d the next event is %s, expected a new host selection", prev.Idx, describe(y))
-		case afterRedo && y.Kind == "r" && y.Idx < x.Idx:
-			w := verdictWord(prev.Verdict)
-			fail("recv/"+w+"-reran-earlier-filter", "after %s by filter %d the next invocation is filter %d (an earlier one), expected the requesting filter", w, prev.Idx, y.Idx)
+		case (afterRedo || afterRechoose) && y.Kind == "r" && y.Idx < x.Idx:
+			w := "re-choose"
+			if afterRedo {
+				w = verdictWord(prev.Verdict)
+			}
+			fail("recv/"+w+"-reran-earlier-filter", "after %s by filter %d the next invocation is filter %d (an earlier one), expected the requesting filter", w, x.Idx, y.Idx)
 		case (afterRedo || afterRechoose) && y.Kind == "r":
 			w := "re-choose"
 			if afterRedo {
